@@ -89,7 +89,7 @@ def run_case(case):
         for k, v in traces.items():
             for t in v:
                 nontrivial.append("%s:%s" % (k, " ".join("/".join(map(str, e)) for e in t)))
-        bmc = protocol.BMC(programs, case["threads"], names=(1, 2))
+        bmc = protocol.BMC(programs, case["threads"], names=(1, 2), timeout_ms=600000 if len(case["threads"]) < 3 or "make_statistic" in case["threads"] else 2400000)
         stats["decisions"] = bmc.T
         for name, verdict, cex in bmc.obligations(only=case.get("only")):
             st = obligations.setdefault(name, [0, 0])
